@@ -51,7 +51,7 @@ func (p *c15) Cases(tier string, emit func(interface{})) {
 	for _, lf := range typesLeaves() {
 		emit(c15Case{Part: "values", Schema: "types", Leaf: lf})
 	}
-	for _, sc := range []string{"base", "keys", "choice"} {
+	for _, sc := range []string{"base", "keys", "choice", "multi"} {
 		emit(c15Case{Part: "trees", Schema: sc, B: c04B(tier)})
 	}
 	emit(c15Case{Part: "lists", Schema: "base"})
@@ -99,6 +99,20 @@ type jsonCmp struct {
 	qualified bool
 	module    string
 	rootStart bool
+	modOf     func(ident string) string
+}
+
+// modAt: module of the node a Find-style path ends at ("" for the root).
+func (jc jsonCmp) modAt(path string) string {
+	if path == "" {
+		return ""
+	}
+	segs := strings.Split(path, "/")
+	last := segs[len(segs)-1]
+	if i := strings.Index(last, "="); i >= 0 {
+		last = last[:i]
+	}
+	return jc.mod(last)
 }
 
 func numEq(n json.Number, want string) bool {
@@ -206,12 +220,33 @@ func (jc jsonCmp) cmpLeaf(v val.Value, got interface{}) string {
 	return jc.cmpScalar(v, got)
 }
 
-// member finds the member for ident, honouring the qualification rule.
-// top says this object is the top level of the schema (module children).
-func (jc jsonCmp) member(obj map[string]interface{}, ident string, top bool, used map[string]bool) (interface{}, bool, string) {
-	q := jc.module + ":" + ident
-	vq, okq := obj[q]
-	vp, okp := obj[ident]
+// mod is the harness' own answer to "which module defines this node".
+func (jc jsonCmp) mod(ident string) string {
+	if jc.modOf != nil {
+		return jc.modOf(ident)
+	}
+	return jc.module
+}
+
+// member finds the member for ident, honouring the qualification rule (RFC 7951 section 4:
+// qualified at the top level and wherever the module differs from the parent's).
+// top says this object is the top level of the schema (module children); parentMod is the
+// module of the node the object stands for.
+func (jc jsonCmp) member(obj map[string]interface{}, ident string, top bool, parentMod string, used map[string]bool) (interface{}, bool, string) {
+	thisMod := jc.mod(ident)
+	want := jc.qualified && (top || (parentMod != "" && thisMod != parentMod))
+	var vq, vp interface{}
+	okq, okp, qmod := false, false, ""
+	for k, v := range obj {
+		if k == ident {
+			vp, okp = v, true
+		} else if strings.HasSuffix(k, ":"+ident) {
+			if okq {
+				return nil, false, "member-twice"
+			}
+			vq, okq, qmod = v, true, strings.TrimSuffix(k, ":"+ident)
+		}
+	}
 	switch {
 	case okq && okp:
 		return nil, false, "member-twice"
@@ -219,29 +254,34 @@ func (jc jsonCmp) member(obj map[string]interface{}, ident string, top bool, use
 		return nil, false, ""
 	}
 	if okq {
-		used[q] = true
-		if !jc.qualified {
+		used[qmod+":"+ident] = true
+		switch {
+		case !jc.qualified:
 			return vq, true, "qualified-although-off"
-		}
-		if !top && jc.rootStart {
+		case qmod != thisMod:
+			return vq, true, "qualified-with-wrong-module"
+		case !want && jc.rootStart:
 			return vq, true, "qualified-below-top-level"
 		}
 		return vq, true, ""
 	}
 	used[ident] = true
-	if jc.qualified && top {
+	if want && top {
 		return vp, true, "unqualified-top-level"
+	}
+	if want {
+		return vp, true, "unqualified-at-module-change"
 	}
 	return vp, true, ""
 }
 
 // cmpObject compares a decoded JSON object with the content of t.
-func (jc jsonCmp) cmpObject(defs []meta.Definition, t *model.Tree, obj map[string]interface{}, top bool, path string) (string, string) {
+func (jc jsonCmp) cmpObject(defs []meta.Definition, t *model.Tree, obj map[string]interface{}, top bool, parentMod string, path string) (string, string) {
 	used := map[string]bool{}
 	for _, d := range model.FlatDefs(defs) {
 		id := d.Ident()
 		p := path + "/" + id
-		got, present, nameSym := jc.member(obj, id, top, used)
+		got, present, nameSym := jc.member(obj, id, top, parentMod, used)
 		if nameSym != "" {
 			return "name/" + nameSym, p
 		}
@@ -272,7 +312,7 @@ func (jc jsonCmp) cmpObject(defs []meta.Definition, t *model.Tree, obj map[strin
 				if !isObj {
 					return fmt.Sprintf("entry-not-an-object:%T", arr[i]), p
 				}
-				if s, w := jc.cmpObject(x.DataDefinitions(), e, eo, false, fmt.Sprintf("%s[%d]", p, i)); s != "" {
+				if s, w := jc.cmpObject(x.DataDefinitions(), e, eo, false, jc.mod(id), fmt.Sprintf("%s[%d]", p, i)); s != "" {
 					return "entry/" + s, w
 				}
 			}
@@ -291,7 +331,7 @@ func (jc jsonCmp) cmpObject(defs []meta.Definition, t *model.Tree, obj map[strin
 			if !isObj {
 				return fmt.Sprintf("container-not-an-object:%T", got), p
 			}
-			if s, w := jc.cmpObject(x.DataDefinitions(), c, co, false, p); s != "" {
+			if s, w := jc.cmpObject(x.DataDefinitions(), c, co, false, jc.mod(id), p); s != "" {
 				return "container/" + s, w
 			}
 		case meta.Leafable:
@@ -399,7 +439,7 @@ func c15CheckStart(m *meta.Module, env *dataEnv, t *model.Tree, start, cfg, fn s
 		return site + "/top-level-not-an-object", text, text
 	}
 	jc := jsonCmp{enumIds: strings.Contains(cfg, "enumids") && fn != "WriteJSON" && fn != "WritePrettyJSON",
-		qualified: strings.Contains(cfg, "qualified") && fn != "WriteJSON" && fn != "WritePrettyJSON", module: m.Ident(), rootStart: start == ""}
+		qualified: strings.Contains(cfg, "qualified") && fn != "WriteJSON" && fn != "WritePrettyJSON", module: m.Ident(), rootStart: start == "", modOf: model.ModuleOf[m.Ident()]}
 	var tt *model.Tree
 	var tl *model.List
 	if kind != "leaf" {
@@ -415,14 +455,15 @@ func c15CheckStart(m *meta.Module, env *dataEnv, t *model.Tree, start, cfg, fn s
 		if lf, ok := pt.Leaves[ld.Ident()]; ok {
 			only.Leaves[ld.Ident()] = lf
 		}
-		s, w = jc.cmpObject([]meta.Definition{ld}, only, obj, false, start)
+		s, w = jc.cmpObject([]meta.Definition{ld}, only, obj, false, jc.modAt(parent), start)
 	case "list":
 		lm := ep.def(m).(*meta.List)
 		wrap := model.NewTree()
 		wrap.Lists[lm.Ident()] = tl
-		s, w = jc.cmpObject([]meta.Definition{lm}, wrap, obj, strings.Count(start, "/") == 0, start)
+		lparent, _ := splitLast(start)
+		s, w = jc.cmpObject([]meta.Definition{lm}, wrap, obj, strings.Count(start, "/") == 0, jc.modAt(lparent), start)
 	default:
-		s, w = jc.cmpObject(ep.defs(m), tt, obj, start == "", start)
+		s, w = jc.cmpObject(ep.defs(m), tt, obj, start == "", jc.modAt(start), start)
 	}
 	if s != "" {
 		return site + "/" + s, w + " text=" + text, text
